@@ -5,16 +5,17 @@ package main
 import (
 	"bufio"
 	"bytes"
-	"net/url"
-	"strconv"
 	"encoding/hex"
 	"encoding/json"
 	"fmt"
+	"net/url"
 	"os"
 	"os/exec"
 	"path/filepath"
 	"reflect"
+	"regexp"
 	"sort"
+	"strconv"
 	"strings"
 
 	"github.com/moov-io/wire"
@@ -98,6 +99,8 @@ func runServerScripts(scripts []map[string]interface{}, race bool) ([]map[string
 	}
 	return res, nil
 }
+
+var markerRe = regexp.MustCompile(`\{[0-9]{4}\}`)
 
 func tail(s string, n int) string {
 	if len(s) > n {
@@ -271,6 +274,24 @@ func init() {
 			allOps = append(allOps, ops)
 			scripts = append(scripts, map[string]interface{}{"mode": "seq", "ops": ops})
 		}
+		// over-long uploads: an accepted message followed by more than a scanner buffer of line breaks and another
+		// segment; one segment longer than the buffer; the same after a first, ordinary create (C08: never a 201
+		// built from a prefix of the body)
+		if len(tnames) > 0 {
+			base := texts[tnames[0]]
+			long1 := strings.TrimRight(base, "\r\n") + strings.Repeat("\n", 66000) + "{6000}trailing segment*"
+			long2 := strings.TrimRight(base, "\r\n") + "\n{6000}" + strings.Repeat("A", 70000) + "*"
+			long3 := strings.Repeat("\n", 70000) + base
+			for _, lb := range []string{long1, long2, long3} {
+				ops := []httpOp{
+					{Op: "create", CT: "text/plain", Body: hex.EncodeToString([]byte(base)), margs: []string{"ct", "~", "~", base}},
+					{Op: "create", CT: "text/plain", Body: hex.EncodeToString([]byte(lb)), margs: []string{"ct", "~", "~", lb}},
+					{Op: "list", margs: []string{"l"}},
+				}
+				allOps = append(allOps, ops)
+				scripts = append(scripts, map[string]interface{}{"mode": "seq", "ops": ops})
+			}
+		}
 		results, err := runServerScripts(scripts, false)
 		if err != nil {
 			o.Case("http:harness", "failed:"+strings.ReplaceAll(tail(err.Error(), 400), "\t", " "), "seq")
@@ -303,6 +324,8 @@ func init() {
 			faithful := "same"
 			listConsistent := "same"
 			optionsAgree := "same" // C12: the query parameters select the same options as the library routes
+			noTruncation := "same" // C08: every marked segment of an accepted text upload is in the stored message
+			ownParams := "same"    // C18: a rendering depends on its own request's parameters only
 			for i, op := range ops {
 				margs = append(margs, op.margs...)
 				r := rs[i]
@@ -337,7 +360,29 @@ func init() {
 						}
 					}
 				}
-				if d := libraryVerdict(lib, op, r, body, created[:min(seenCreate, len(created))]); d != "" && faithful == "same" {
+				if op.Op == "create" && !strings.Contains(op.CT, "json") && r.Status == 201 && noTruncation == "same" {
+					reqText, _ := hex.DecodeString(op.Body)
+					flat := strings.ReplaceAll(strings.ReplaceAll(string(reqText), "\r\n", ""), "\n", "")
+					if sf, err := wire.FileFromJSON(body); err == nil && sf != nil {
+						var wb bytes.Buffer
+						_ = wire.NewWriter(&wb, wire.NewlineCharacter("")).Write(sf)
+						stored := wb.String()
+						for _, mk := range markerRe.FindAllString(flat, -1) {
+							if !strings.Contains(stored, mk) {
+								noTruncation = fmt.Sprintf("differ:request %d: 201 Created, but the segment %s of the %d-byte body is not in the stored message", i, mk, len(reqText))
+								break
+							}
+						}
+					}
+				}
+				d := libraryVerdict(lib, op, r, body, created[:min(seenCreate, len(created))])
+				if d != "" && op.Op == "create" && !strings.Contains(op.CT, "json") && r.Status == 201 && noTruncation == "same" {
+					noTruncation = fmt.Sprintf("differ:request %d: 201 Created for a body the reader itself refuses: %s", i, d)
+				}
+				if d != "" && faithful == "same" {
+					if op.Op == "contents" && ownParams == "same" {
+						ownParams = fmt.Sprintf("differ:request %d: contents?%s is not the rendering its own parameters select: %s", i, op.Query, d)
+					}
 					faithful = fmt.Sprintf("differ:request %d (%s): %s", i, op.Op, d)
 					if op.Op == "create" && !strings.Contains(op.CT, "json") && op.Query != "" && optionsAgree == "same" {
 						optionsAgree = fmt.Sprintf("differ:POST /files/create?%s: %s", op.Query, d)
@@ -389,6 +434,8 @@ func init() {
 			o.Case("prop:http-faithful", faithful, margs...)
 			o.Case("prop:http-list-consistent", listConsistent, margs...)
 			o.Case("prop:http-options-agree", optionsAgree, margs...)
+			o.Case("prop:http-no-truncation", noTruncation, fmt.Sprint(h))
+			o.Case("prop:http-contents-own-params", ownParams, fmt.Sprint(h))
 			o.Case("prop:http-status-documented", "same", fmt.Sprint(h))
 			o.Case("prop:http-log-isolation", "same", fmt.Sprint(h))
 			o.Case("prop:http-error-body-json", "same", fmt.Sprint(h))
